@@ -179,6 +179,10 @@ class NoiseDevice:
 # ------------------------------------------------- recording stand-ins (helper level)
 
 
+class ConsumerFailed(RuntimeError):
+    """Raised by the stand-in connection for the packets it was told to fail on."""
+
+
 class RecordingConnection:
     """Stands in for APIConnection below a frame helper."""
 
@@ -186,11 +190,14 @@ class RecordingConnection:
         self.packets: list[tuple[int, bytes]] = []
         self.errors: list[BaseException] = []
         self.raise_on_packet: BaseException | None = None
+        self.raise_at: set[int] = set()  # 1-based numbers of the packets whose consumer fails (after taking the packet)
 
     def process_packet(self, msg_type: int, data: bytes) -> None:
         self.packets.append((msg_type, bytes(data)))
         if self.raise_on_packet is not None:
             raise self.raise_on_packet
+        if len(self.packets) in self.raise_at:
+            raise ConsumerFailed(len(self.packets))
 
     def report_fatal_error(self, err: BaseException) -> None:
         self.errors.append(err)
